@@ -228,10 +228,28 @@ func toHostnameOracle(addr string) string {
 }
 
 // runHistory executes one history against the real FileStore.
+// runHistory runs one history; a call that did not return within the watchdog limit is
+// re-confirmed on a fresh run of the same history before it is reported (a loaded host).
 func runHistory(hc histCase) {
 	if wedged >= 3 {
 		return
 	}
+	confirmHang = false
+	before := wedged
+	runHistory1(hc)
+	if wedged > before && !confirmHang {
+		// first sighting: not reported yet (see failHang); run again, now reporting
+		wedged = before
+		confirmHang = true
+		runHistory1(hc)
+		confirmHang = false
+	}
+}
+
+// confirmHang: the current run is the confirmation run of a history that wedged once
+var confirmHang bool
+
+func runHistory1(hc histCase) {
 	id := run.NewID()
 	base, err := os.MkdirTemp("", "c18h")
 	if err != nil {
@@ -326,7 +344,12 @@ func runHistory(hc histCase) {
 	} else if initDoc != nil && initDoc.k != jObj {
 		run.Count("init:not-an-object")
 	}
-	fail := func(sig, msg string) { run.OracleFail(id, sig, msg, hc) }
+	fail := func(sig, msg string) {
+		if sig == "hang" && !confirmHang {
+			return // reported only when it happens again on a fresh run
+		}
+		run.OracleFail(id, sig, msg, hc)
+	}
 
 	fs, err := credentials.NewFileStore(path)
 	if err == nil && hc.DisablePut {
